@@ -212,6 +212,11 @@ func decodeType(b []byte) (format.Type, int) {
 	return format.Type(v), 1
 }
 
+// decodeSize decodes a size from the b end, returns n < 0 when the size is invalid or truncated.
 func decodeSize(b []byte) (uint32, int) {
-	return compactint.ReverseUint32(b)
+	v, n := compactint.ReverseUint32(b)
+	if n == 0 {
+		return 0, -1
+	}
+	return v, n
 }
